@@ -230,6 +230,7 @@ func (ek *EAPOLKey) DecodeFromBytes(data []byte, df gopacket.DecodeFeedback) err
 			Payload:  data[totalLength:],
 		}
 	} else {
+		ek.EncryptedKeyData = nil
 		ek.BaseLayer = BaseLayer{
 			Contents: data[:eapolKeyFrameLen],
 			Payload:  data[eapolKeyFrameLen:],
